@@ -28,7 +28,7 @@ def cases(draw, tier='quick'):
     factors = [{'attrs': cl, 'vals': {'seed': draw(st.integers(0, 2**31 - 1)), 'scale': draw(st.sampled_from([0.0, 1.0, 1.0, 3.0]))},
                 'ninf': draw(st.sampled_from([0, 0, 0.3, 0.6]))} for cl in cliques]
     rows = draw(st.sampled_from([None, 1, 2, 7, 100, 10**4] + ([10**5, 10**6] if tier == 'thorough' else [])))
-    total = draw(st.one_of(st.sampled_from([1, 7.9, 100, 1000.0, 12345.6, 10**6]), st.floats(0.3, 1.0))) if rows is not None else draw(st.sampled_from([1, 7.9, 100, 1000.0, 12345.6, 0.5]))
+    total = draw(st.one_of(st.sampled_from([1, 7.9, 100, 1000.0, 12345.6, 10**6]), st.floats(0.3, 1.0))) if rows is not None else draw(st.sampled_from([1, 7.9, 100, 1000.0, 12345.6, 0.5, 999.9999999998, 2.99999975, 41 - 1e-9, 250.0000001]))
     return {'domain': dom, 'cliques': cliques, 'factors': factors, 'witness': witness, 'total': total,
             'order': draw(c01.order_mode(attrs)), 'np_seed': draw(st.integers(0, 2**31 - 1)),
             'rows': rows, 'rows2': draw(st.sampled_from([3, 250, 10**4])), 'method': draw(st.sampled_from(['round', 'round', 'sample'])),
